@@ -1,6 +1,6 @@
-\* all fact combinations, each with every possible single failing read: 32,040 initial states, 64,080 distinct states
+\* every fact combination with every possible single failing read: 38,340 initial states, 76,680 distinct states
 SPECIFICATION Spec
-CONSTANTS FailsOn = TRUE
+CONSTANTS FailScope = "all"
 INVARIANTS TypeOK C36_SystemBypass C36_DisbandTerminal C36_Precedence C36_ErrorsOnlyWhenConsulted
 PROPERTIES C36_PathsAgree
 CHECK_DEADLOCK FALSE
